@@ -1043,7 +1043,7 @@ class Engine:
         if isinstance(obj, SliceV) and attr in ("start", "stop", "step"):
             return getattr(obj, attr)
         if isinstance(obj, Raise) and attr == "args":
-            return ()
+            return (Opaque("exception-argument"),)
         return self.hooks.get_attr(self, obj, attr)
 
     def pymax(self, a, b):
@@ -1139,7 +1139,12 @@ class Engine:
             names = [x.arg for x in node.args.args]
             local = dict(cenv)  # closures read the enclosing environment (by reference for Rec values)
             local.update(zip(names, args))
-            local.update(kw)
+            accepted = set(names) | {x.arg for x in node.args.kwonlyargs}
+            local.update({k: v for k, v in kw.items() if k in accepted})
+            if node.args.kwarg is not None:
+                local[node.args.kwarg.arg] = {k: v for k, v in kw.items() if k not in accepted}
+            if node.args.vararg is not None:
+                local[node.args.vararg.arg] = tuple(args[len(names):])
             for nme, dflt in zip(names[len(names) - len(node.args.defaults):], node.args.defaults):
                 if nme not in dict(zip(names, args)) and nme not in kw:
                     local[nme] = self.eval(dflt, cenv)
